@@ -202,27 +202,32 @@ Definition pos_of (m : metainfo) (pos : N) : result piece_pos :=
   if m_piece_length m =? 0 then Panic
   else Ok (mkpos (pos / m_piece_length m) (pos mod m_piece_length m)).
 
-(* file_piece_ranges: (lexical path pieces are in Path.v) start and end position per file *)
+(* file_piece_ranges: start and end position per file (paths are joined in Path.v) *)
+Fixpoint ranges_go (ovf : bool) (m : metainfo) (fs : list file) (pos : N)
+  : result (list (bytes * piece_pos * piece_pos)) :=
+  match fs with
+  | [] => Ok []
+  | f :: r =>
+      let e := pos + f_length f in
+      do e' <- (if e <? two64 then Ok e else if ovf then Panic else Ok (e mod two64));
+      do p1 <- pos_of m pos;
+      do p2 <- pos_of m e';
+      do rest <- ranges_go ovf m r e';
+      Ok ((f_path f, p1, p2) :: rest)
+  end.
 Definition file_piece_ranges (ovf : bool) (m : metainfo) : result (list (bytes * piece_pos * piece_pos)) :=
-  (fix go (fs : list file) (pos : N) : result (list (bytes * piece_pos * piece_pos)) :=
-     match fs with
-     | [] => Ok []
-     | f :: r =>
-         let e := pos + f_length f in
-         do e' <- (if e <? two64 then Ok e else if ovf then Panic else Ok (e mod two64));
-         do p1 <- pos_of m pos;
-         do p2 <- pos_of m e';
-         do rest <- go r e';
-         Ok ((f_path f, p1, p2) :: rest)
-     end) (m_files m) 0.
+  ranges_go ovf m (m_files m) 0.
 
 (* ---- create_file ---------------------------------------------------------------- *)
+Definition create_torrent_with (name tracker : bytes) (data_len : N) (pieces : bytes) : bytes :=
+  let info := map_of_list [ (k_name, BStr name); (k_piece_length, BInt (Z.of_N PIECE_LENGTH));
+                            (k_pieces, BStr pieces); (k_length, BInt (Z.of_N data_len)) ] in
+  let torrent := map_of_list [ (k_announce, BStr tracker); (k_info, BDict info) ] in
+  encode (BDict torrent).
+
 Section Create.
   Variable sha1 : bytes -> bytes.
   Definition create_torrent (name tracker data : bytes) : bytes :=
-    let pieces := concat (map sha1 (chunks (N.to_nat PIECE_LENGTH) data)) in
-    let info := map_of_list [ (k_name, BStr name); (k_piece_length, BInt (Z.of_N PIECE_LENGTH));
-                              (k_pieces, BStr pieces); (k_length, BInt (Z.of_N (len data))) ] in
-    let torrent := map_of_list [ (k_announce, BStr tracker); (k_info, BDict info) ] in
-    encode (BDict torrent).
+    create_torrent_with name tracker (len data)
+                        (concat (map sha1 (chunks (N.to_nat PIECE_LENGTH) data))).
 End Create.
